@@ -368,6 +368,8 @@ class Program:
             self.modules[modname] = mod
         self.digest = h.hexdigest()
         self._inline_explaining_constants()
+        from .inline import inline_new_helpers
+        self.read_through = inline_new_helpers({name: mod.tree for name, mod in self.modules.items()})
         for mod in self.modules.values():
             set_parents(mod.tree)
         for mod in self.modules.values():
